@@ -221,6 +221,7 @@ theorem map_ph (x p : Nat) (F : Operand → Operand)
 
 theorem mutate_single_eq (H : Heap) (x p : Nat) (kind : Kind) (ids : List Nat) (vals : List Int)
     (hcc : (H.t x).data.d.isCContig = true) (hph : ∀ i ∈ ids, i ≠ p)
+    (hro : H.ro.contains (H.t x).data.buf = false)
     (hw : outWrite kind ((ids.map (swapVar x p)).map fun i => (copyH H x).1.val ((copyH H x).1.t i).data)
             (copyH H x).2.d.shape ((copyH H x).1.read (copyH H x).2) none = .ok vals)
     (hdfs : ∀ c ∈ ((finalH H x p kind ids vals).t p).vchildren, c ≠ x ∧ c ≠ p) :
@@ -231,10 +232,11 @@ theorem mutate_single_eq (H : Heap) (x p : Nat) (kind : Kind) (ids : List Nat) (
     let (target, chain) ← withHeap (copyH H x).1 (inPlaceTarget (copyH H x).1 (G1 x p) x (copyH H x).2)
     _) = _
   rw [G1_target]
-  simp only [withHeap, Bind.bind, Except.bind, List.any_nil, Bool.false_eq_true, if_false]
+  have hro' : (copyH H x).1.ro.contains (H.t x).data.buf = false := hro
+  simp only [withHeap, Bind.bind, Except.bind, List.any_nil, hro', Bool.or_self, Bool.false_eq_true, if_false]
   rw [map_ph x p _ (fun i => rfl) ids hph]
   rw [show (H.newArr (H.val (H.t x).data)).fst = (copyH H x).1 from rfl, opStepOut_tensors _ _ _ _ _ hw]
-  simp only [pure, Except.pure, if_true]
+  simp only [pure, Except.pure, if_true, Bool.false_or, hro', Bool.false_eq_true, if_false]
   show recreateViews (finalH H x p kind ids vals) ((G1 x p).dfs (finalH H x p kind ids vals)) = _
   rw [show G1 x p = ⟨[⟨x, p, none⟩]⟩ from rfl, dfs_single _ x p hdfs, recreate_single]
 
@@ -443,6 +445,18 @@ end MG.C04R
 namespace MG.C04R
 open MG.Eng MG.ND MG.C13
 
+theorem ro_reroute (h : Heap) (a b : Nat) : (reroute h a b).ro = h.ro := by
+  unfold reroute
+  generalize (h.t b).ops = L
+  induction L generalizing h with
+  | nil => rfl
+  | cons f L ih => simp only [List.foldl_cons]; rw [ih]; rfl
+
+theorem dupH_ro (h : Heap) (x : Nat) : (dupH h x).ro = h.ro := by
+  unfold dupH
+  rw [ro_reroute]
+  rfl
+
 theorem val_congr (h h' : Heap) (a : Arr) (hb : h'.buf a.buf = h.buf a.buf) : h'.val a = h.val a := by
   simp only [Heap.val, Heap.read, hb]
 
@@ -459,6 +473,7 @@ theorem inplace_on_owner_refines_numpy (h : Heap) (roots : List Nat) (x : Nat) (
     (hnov : liveChildren h (liveSet h roots) x = [])
     (hvc : ∀ c ∈ (h.t x).vchildren, c ≠ x ∧ c ≠ h.next)
     (hcc : (h.t x).data.d.isCContig = true)
+    (hro : h.ro.contains (h.t x).data.buf = false)
     (hids : ∀ i ∈ ids, i < h.next)
     (hbufs : ∀ i ∈ ids, (h.t i).data.buf ≠ h.next + 1) (hxbuf : (h.t x).data.buf ≠ h.next + 1)
     (hw : outWrite kind (ids.map fun i => h.val (h.t i).data) (h.t x).data.d.shape (h.read (h.t x).data) none
@@ -534,7 +549,9 @@ theorem inplace_on_owner_refines_numpy (h : Heap) (roots : List Nat) (x : Nat) (
       rw [t_setT_ne _ _ _ _ hne, t_modT_ne _ _ _ _ (by omega)]
     rw [e1, outRes_vchildren _ _ _ _ _ _ (by rw [cN, dN]; omega), cT, dPv]
     exact hvc
-  have hmut := mutate_single_eq (dupH h x) x h.next kind ids vals hcc' hph hw' hdfs
+  have hro' : (dupH h x).ro.contains ((dupH h x).t x).data.buf = false := by
+    rw [dxd, dupH_ro]; exact hro
+  have hmut := mutate_single_eq (dupH h x) x h.next kind ids vals hcc' hph hro' hw' hdfs
   obtain ⟨f1, f2, f3, f4, f5⟩ := finalH_spec (dupH h x) x h.next kind ids vals hx' hvl'
   refine ⟨finalH (dupH h x) x h.next kind ids vals, ?_, rfl, ?_, ?_, f3, ?_, ?_⟩
   · unfold inPlaceOp
